@@ -1018,6 +1018,62 @@ def leftover_leg(res):
                 break
 
 
+def consumer_case(impl, meth, repeat):
+    """something downstream consumes the destination: after the first files of a subdirectory were mirrored it takes
+    them away and removes the emptied subdirectory (a second-stage `mirror mv`, a ring buffer on the destination: both
+    rmdir what they emptied).  Later events for that subdirectory -- new files, and repeated events for files whose
+    source still exists -- must be mirrored as if the directory had never been seen.  -> (taken dirs, problem or None)"""
+    import sys as _sys
+    impl.force_symlink = False
+    impl.reset(meth, (True, True))
+    first = [(-1, 0, 0), (-2, 0, 1)] + [(g, key_of(0), 0) for g in (0, 1)]
+    later = [(g, key_of(j), 0) for g in (0, 1) for j in (1, 2)]
+    se = _sys.stderr
+    _sys.stderr = open(os.devnull, "w")
+    taken = []
+    try:
+        for p in first:
+            impl.apply(("W", p, 1))
+            impl.apply(("C", p))
+        for g in (0, 1):                       # the consumer takes the data subdirectories, whole
+            d = os.path.dirname(os.path.join(impl.dest, rel((g, key_of(0), 0))))
+            if os.path.isdir(d):
+                taken.append(os.path.relpath(d, impl.dest))
+                shutil.rmtree(d)
+        for p in later:
+            impl.apply(("W", p, 1))
+            impl.apply(("C", p))
+        if repeat:
+            for p in first[2:]:
+                impl.apply(("M", p))           # a repeated event for a file mirrored before the clean-up
+    finally:
+        _sys.stderr.close()
+        _sys.stderr = se
+    src_t, dst_t = read_tree(impl.src), read_tree(impl.dest)
+    for p in later:
+        r = rel(p)
+        want = content(p, 1)
+        if dst_t.get(r) != want:
+            return taken, (r, {"dest_has_final": r in dst_t, "still_in_source": src_t.get(r) == want,
+                               "dest_entries": sorted(k for k in dst_t if os.path.dirname(k) == os.path.dirname(r))})
+    return taken, None
+
+
+def consumer_leg(res):
+    impl = Impl(False)
+    for h in range(6 if res.tier == "quick" else 30):
+        meth, repeat = h % 3, (h // 3) % 2
+        taken, prob = consumer_case(impl, meth, repeat)
+        res.case(("consumer", METH[meth], repeat), nontrivial=True)
+        res.count("destination-subdirectory-consumed:" + METH[meth])
+        if prob:
+            res.violation("not-mirrored-after-destination-cleanup", "a file created after a consumer removed the (emptied) "
+                          "destination subdirectory is not mirrored (%s)" % METH[meth],
+                          {"consumer_leg": {"meth": meth, "repeat": repeat, "taken": taken}, "file": prob[0]},
+                          "the source's content under the final name in the destination", prob[1])
+            return
+
+
 def fault_leg(res):
     """move mode, one publishing rename (tmp.<name> -> <name> under the destination) fails: whatever the mirror does
     about it, an intact copy of every data file exists in the source or under the destination at every moment, and
@@ -1115,6 +1171,7 @@ def _run(res):
     handler_table_leg(res)
     fault_leg(res)
     leftover_leg(res)
+    consumer_leg(res)
     res.extra["traces_validated_against_impl"] = res.dist.get("fs-operations-traced", 0)
     res.assumptions += [
         "os.rename and os.link are atomic; shutil.copy2 writes the destination name before the content is complete (traced: copyfile is replaced by a two-chunk copy to observe the middle)",
@@ -1127,6 +1184,15 @@ def _run(res):
 
 def replay(res, rp):
     i = rp["input"]
+    if "consumer_leg" in i:
+        L = i["consumer_leg"]
+        taken, prob = consumer_case(Impl(False), L["meth"], L["repeat"])
+        print("mirror (%s); after the first file of each channel was mirrored a consumer removed %s from the destination; "
+              "then two more files per channel were written and reported" % (METH[L["meth"]], taken))
+        if prob:
+            print("VIOLATION: %s is not under the destination:" % prob[0], prob[1])
+        print("replay verdict:", "STILL VIOLATING" if prob else "no longer violating")
+        return 1 if prob else 0
     if "leftover_leg" in i:
         import sys as _sys
         L = i["leftover_leg"]
